@@ -725,8 +725,9 @@ EIGHTH_PASS = {
             "from the system and set-up of the call; the averaging vector follows the polarisations.",
             "dead-call rule; stored-result analysis of the calculator; derived-on-read / re-deriving-writers rule"),
     "C13": ("Round 8: a method that moves an axis moves points and description alike.", "symbolic interpretation of the axis record (start = S, data = S + k*step)"),
-    "C14": ("Round 8: the index handed to the bath getter and what the getter does with it add up to the molecule's number.",
-            "offset algebra over caller and callee"),
+    "C14": ("Round 8 and fourth hunt: the index handed to the bath getter and what the getter does with it add up to the molecule's "
+            "number; bath functions at different temperatures are refused, not taken for 'no temperature'.",
+            "offset algebra over caller and callee; swallowed-refusal rule on has_temperature"),
     "C15": ("Third hunt and round 8: kernels of the propagators do not write into their operands; no accumulator persists across propagations.",
             "effect analysis of the kernels; persistent-accumulator rule"),
     "C16": ("Round 8: what is recorded while the baths are counted is recorded where the counter advances.", "counter-lockstep analysis"),
